@@ -496,6 +496,35 @@ def hUserinfo (d : Deployment) (now : Clock) (tok : Artefact) : Outcome :=
   | .error e => (.error e, .nothing)
   | .ok u => (.ok (), ⟨none, [], some u⟩)
 
+/-! ## the deployment as the configuration loader builds it -/
+
+/-- every key that exists around a configuration file -/
+structure KeyConfig where
+  signer : Key                -- ssh_ca_filename (unsealed)
+  ed25519 : Option Key        -- ed25519_ca_keyfilename
+  listed : List Key           -- keymaster_public_keys_filename: the other keymasters of the deployment
+  clientCAs : List Key        -- keys of the CA certificates in client_ca_filename (admin CA, automation CAs)
+  others : List Key           -- TLS server key, admin client key, …
+
+/-- `loadVerifyConfigFile` followed by `signerPublicKeyToKeymasterKeys`: the listed keys, then the
+deployment's own signers — nothing else -/
+def KeyConfig.trusted (k : KeyConfig) : List Key :=
+  k.listed ++ (match k.ed25519 with | some e => [e] | none => []) ++ [k.signer]
+
+/-! ## storage lookups as a sequence -/
+
+/-- one `GetSigned` call: when, what the consulted table (primary, or local copy after a timeout) holds for
+that user and type, and what is asked -/
+structure Lookup where
+  now : Clock
+  row : Option Row
+  user : Str
+  ty : Int
+
+/-- `GetSigned` keeps nothing between calls: every lookup is decided on the row and the clock of that call -/
+def lookups (d : Deployment) (l : List Lookup) : List (Except Rej Str) :=
+  l.map (fun s => acceptStorage d s.now s.row s.user s.ty)
+
 /-! ## Kinds, consumers, and one uniform decision function (used by the matrix theorems and the judge) -/
 
 inductive Kind
